@@ -676,6 +676,12 @@ def main(ctx: Ctx) -> int:
         # a UMIST file: one or two reactants, up to FOUR products (every product column used)
         {"reactions": [(["H2", "O"], ["OH", "H"]), (["CH3OH", "H+"], ["CH", "OH", "H2", "H+"]), (["CH3OH", "He+"], ["CH2", "OH", "H", "He+"]), (["OH", "H"], ["O", "H2"])],
          "required": [], "via_files": ["umist"], "origin": "random"},
+        # a UMIST file with SELF-reactions (the same species in both reactant columns) next to ordinary ones
+        {"reactions": [(["OH", "OH"], ["H2O", "O"]), (["CH", "CH"], ["CH2", "C"]), (["OH", "H"], ["O", "H2"]), (["H", "H"], ["H2"]), (["C", "OH"], ["CO", "H"])],
+         "required": [], "via_files": ["umist"], "origin": "random"},
+        # a species on BOTH sides with different multiplicities (collisional ionisation and dissociation): not a catalyst, its net term stays
+        {"reactions": [(["H", "e-"], ["H+", "e-", "e-"]), (["H2", "H"], ["H", "H", "H"]), (["H+", "e-"], ["H"]), (["H", "H", "H"], ["H2", "H"]),
+                       (["H2", "e-"], ["H", "H", "e-"]), (["He", "e-"], ["He+", "e-", "e-"])], "required": [], "origin": "random"},
         # a KROME file in the default column layout, read after another KROME file with its own layout was aborted at a bad line
         {"reactions": [(["H", "H", "H"], ["H2", "H"]), (["H2", "He+"], ["H", "H+", "He"]), (["H+", "e-"], ["H"]), (["He+", "e-"], ["He"])],
          "required": [], "via_files": ["krome"], "after_failed_krome": True, "origin": "random"},
